@@ -1,4 +1,34 @@
-From Verif Require Import Base Do.Sem Do.Proofs.
-Theorem C20_tmp : forall n, length (main (expected n)) = n + 7.
-Proof. exact expected_main_length. Qed.
-Print Assumptions C20_tmp.
+(* Properties/C20.v — deriveDo runs all functions concurrently and returns every result and an error.
+   [expected n] is the goroutine program goderive emits for n functions (re-checked on every run:
+   the translator parses the emitted Go and Coq checks `translated = expected n`).  [fs] are the user
+   functions: scripts of rendezvous with one another, a value and an error tag.  [reach (expected n) fs]
+   quantifies over every interleaving.  Only statements; proofs are in Do/Canon.v and Do/Proofs.v. *)
+From Verif Require Import Base Do.Sem Do.Canon Do.Proofs.
+From Coq Require Import Permutation.
+
+Theorem C20_do_results_in_position : forall n fs, length fs = n -> forall s vs e,
+  reach (expected n) fs s -> main_ret s = Some (vs, e) -> vs = map rv fs.
+Proof. exact results_in_position. Qed.
+Print Assumptions C20_do_results_in_position.
+
+Theorem C20_do_error_iff : forall n fs, length fs = n -> forall s vs e,
+  reach (expected n) fs s -> main_ret s = Some (vs, e) ->
+  exists order, Permutation order (seq 0 n) /\ e = first_err fs order /\
+    (e = None <-> forall f, In f fs -> re f = None) /\
+    (forall x, e = Some x -> exists f, In f fs /\ re f = Some x).
+Proof. exact error_iff. Qed.
+Print Assumptions C20_do_error_iff.
+
+Theorem C20_do_no_leak : forall n fs, length fs = n -> forall s,
+  reach (expected n) fs s -> main_ret s <> None ->
+  all_halted (expected n) s = true /\ buf s = [] /\ forall a, step (expected n) fs s a = None.
+Proof. exact no_leak. Qed.
+Print Assumptions C20_do_no_leak.
+
+Theorem C20_do_reads_after_writes : forall n fs, length fs = n -> forall s,
+  reach (expected n) fs s -> racy s = false /\
+  (forall vs e, main_ret s = Some (vs, e) ->
+     exists t, nth_error (thr s) 0 = Some t /\
+       forall c, c < n -> cws (nth c (cells s) zero_cell) = [(S c, 0)] /\ seen_in (seen t) (S c, 0) = true).
+Proof. exact race_free. Qed.
+Print Assumptions C20_do_reads_after_writes.
